@@ -1,5 +1,5 @@
 (** * C17 — momentum agents trade symmetrically in rising and falling markets *)
-From Bourse Require Import Model.Types Model.Side Model.Book Model.Rng Model.Float Model.Env Model.Agents Proofs.AgentProps.
+From Bourse Require Import Model.Types Model.Side Model.Book Model.Rng Model.Float Model.Env Model.Agents Proofs.AgentProps Proofs.AgentDir.
 
 (** When the momentum signal is exactly zero a trader submits nothing. *)
 Theorem c17_flat_no_orders : forall ln e c a p mid pl pm trader live e' c' live',
@@ -13,6 +13,34 @@ Proof. exact mom_flat_no_orders. Qed.
 Theorem c17_probability_ignores_sign : forall x : f64, fabs (BinarySingleNaN.Bopp x) = fabs x.
 Proof. exact fabs_opp. Qed.
 
+(** Direction. One update of a momentum agent (all its traders, limit and market
+    orders): with [M = m (1 - decay) + decay (P - p)] computed in binary64 from the
+    mid-price it sees and the one it saw last, every order it adds to its asset's
+    book is a buy when [M > 0] and a sell when [M < 0]; when [M] is zero (or on the
+    first look, when there is no previous price) the book is unchanged. [lognormal]
+    and [tanh64] are arbitrary (the direction does not depend on the oracles). *)
+Theorem c17_direction_follows_sign : forall lognormal tanh64 k e c a orders first n p last mom e' c' ag',
+  agent_update lognormal tanh64 k e c (AMomentum a orders first n p last mom) = Ok (e', c', ag') ->
+  match last with
+  | None => en_market e' = en_market e
+  | Some lp =>
+      exists mid, mid_f64 e a = Ok mid /\
+        let m := mom_signal p mom mid lp in
+        (fgt m f_zero = true -> grows_with Bid a e e') /\
+        (fgt m f_zero = false -> flt m f_zero = true -> grows_with Ask a e e') /\
+        (fgt m f_zero = false -> flt m f_zero = false -> en_market e' = en_market e)
+  end.
+Proof. exact momentum_update_direction. Qed.
+
+(** Opposite signals have opposite signs (and [fabs] gives them the same
+    propensity, above): what makes the mirrored order flow the mirror image. *)
+Theorem c17_opposite_signal_opposite_sign : forall m : f64,
+  fgt (BinarySingleNaN.Bopp m) f_zero = flt m f_zero /\ flt (BinarySingleNaN.Bopp m) f_zero = fgt m f_zero.
+Proof. exact sign_of_opp. Qed.
+
 Check c17_flat_no_orders.
+Check c17_direction_follows_sign.
 Print Assumptions c17_flat_no_orders.
 Print Assumptions c17_probability_ignores_sign.
+Print Assumptions c17_direction_follows_sign.
+Print Assumptions c17_opposite_signal_opposite_sign.
